@@ -232,7 +232,8 @@ def get_mypy_comments(source: str) -> list[tuple[int, str]]:
     # Don't bother splitting up the lines unless we know it is useful
     if PREFIX not in source:
         return []
-    lines = source.split("\n")
+    # Split at every line terminator the Python tokenizer recognizes (a lone "\r" included).
+    lines = re.split(r"\r\n|\r|\n", source)
     results = []
     for i, line in enumerate(lines):
         if line.startswith(PREFIX):
